@@ -333,20 +333,39 @@ def decrypt_callers_narrow(repo: Repo) -> bool:
     return n >= 2
 
 
+def _memo(fn):
+    box: dict = {}
+
+    def w():
+        if "v" not in box:
+            box["v"] = fn()
+        return box["v"]
+    return w
+
+
 def transport_reviewed(repo: Repo, mr) -> dict:
     from .c12 import address_reviewed
-    out = dict(address_reviewed(repo, tuple(m for m in repo.modules if m.startswith("xknx.knxip."))))
+    out = {k: (r, _memo(v) if v is not None else None) for k, (r, v) in address_reviewed(repo, tuple(m for m in repo.modules if m.startswith("xknx.knxip."))).items()}
+    global frames_come_from_the_parser
+    _orig = frames_come_from_the_parser
+    _cache: dict = {}
+
+    def frames_cached(r):
+        if "v" not in _cache:
+            _cache["v"] = _orig(r)
+        return _cache["v"]
+    fcp = frames_cached
     wire = "frames reach the handlers only from KNXIPFrame.from_knx (census of handle_knxipframe callers; header/bodies default-constructed), and every writer of the field on that path stores a value of the wire width"
     hdr = repo.cls("xknx.knxip.header", "KNXIPHeader")
     sw = repo.cls("xknx.knxip.secure_wrapper", "SecureWrapper")
     tn = repo.cls("xknx.knxip.timer_notify", "TimerNotify")
-    out["OverflowError|KNXIPHeader.to_knx|self.total_length.to_bytes(2, 'big')"] = (wire, lambda: frames_come_from_the_parser(repo) and wire_range_ok(repo, mr, hdr, "total_length", 2))
-    out["OverflowError|_IPSecureTransportLayer.decrypt_frame|encrypted_frame.body.secure_session_id.to_bytes(2, 'big')"] = (wire, lambda: frames_come_from_the_parser(repo) and wire_range_ok(repo, mr, sw, "secure_session_id", 2))
-    out["OverflowError|SecureSequenceTimer.verify_timer_notify_mac|timer_notify.timer_value.to_bytes(6, 'big')"] = (wire, lambda: frames_come_from_the_parser(repo) and wire_range_ok(repo, mr, tn, "timer_value", 6))
-    out["OverflowError|_IPSecureTransportLayer.decrypt_frame|len(dec_frame).to_bytes(2, 'big')"] = ("dec_frame has the length of the wrapper's encrypted_data, a slice of a received frame whose total length is a 16-bit field", lambda: frames_come_from_the_parser(repo))
+    out["OverflowError|KNXIPHeader.to_knx|self.total_length.to_bytes(2, 'big')"] = (wire, _memo(lambda: fcp(repo) and wire_range_ok(repo, mr, hdr, "total_length", 2)))
+    out["OverflowError|_IPSecureTransportLayer.decrypt_frame|encrypted_frame.body.secure_session_id.to_bytes(2, 'big')"] = (wire, _memo(lambda: fcp(repo) and wire_range_ok(repo, mr, sw, "secure_session_id", 2)))
+    out["OverflowError|SecureSequenceTimer.verify_timer_notify_mac|timer_notify.timer_value.to_bytes(6, 'big')"] = (wire, _memo(lambda: fcp(repo) and wire_range_ok(repo, mr, tn, "timer_value", 6)))
+    out["OverflowError|_IPSecureTransportLayer.decrypt_frame|len(dec_frame).to_bytes(2, 'big')"] = ("dec_frame has the length of the wrapper's encrypted_data, a slice of a received frame whose total length is a 16-bit field", _memo(lambda: fcp(repo)))
     out["OverflowError|calculate_message_authentication_code_cbc|len(additional_data).to_bytes(2, 'big')"] = ("every caller passes a concatenation of fixed-size header fields and identifiers (well below 65536 octets)", None)
-    out["AssertionError|_IPSecureTransportLayer.decrypt_frame|assert isinstance(encrypted_frame.body, SecureWrapper)"] = ("every call of decrypt_frame is dominated by isinstance(frame.body, SecureWrapper)", lambda: decrypt_callers_narrow(repo))
-    out["ValueError|KNXIPTransport.unregister_callback|self.callbacks.remove(callb)"] = ("every unregister passes a handle that is registered: the one register_callback just returned, or a slot tested non-empty before and reset to None right after that only holds such handles", lambda: unregister_idiom(repo))
+    out["AssertionError|_IPSecureTransportLayer.decrypt_frame|assert isinstance(encrypted_frame.body, SecureWrapper)"] = ("every call of decrypt_frame is dominated by isinstance(frame.body, SecureWrapper)", _memo(lambda: decrypt_callers_narrow(repo)))
+    out["ValueError|KNXIPTransport.unregister_callback|self.callbacks.remove(callb)"] = ("every unregister passes a handle that is registered: the one register_callback just returned, or a slot tested non-empty before and reset to None right after that only holds such handles", _memo(lambda: unregister_idiom(repo)))
     for exc in ("ValueError", "OverflowError"):
         out[f"{exc}|SecureSequenceTimer._monotonic_ms|int(self._loop.time() * 1000.0)"] = ("asyncio's loop.time() is a finite monotonic clock reading", None)
     return out
@@ -364,9 +383,10 @@ def tcp_stream_table(chk: Check, repo: Repo, lbd: LowerBound) -> None:
     chk.ob("tcp-stream-loop", fi.site(), True, "one loop over the unparsed octets, one frame per iteration", key="tcp|stream-loop")
     head = loops[0]
     wl = next(w for w in walk_local(fi.node) if isinstance(w, ast.While) and w.test is head.ast)
-    if not isinstance(wl.test, ast.Name):
+    tnames = sorted({x.id for x in ast.walk(wl.test) if isinstance(x, ast.Name) and x.id not in ("len", "KNXIPHeader", "self")})
+    if len(tnames) != 1:
         raise AnalysisError(f"unsupported stream-loop condition `{ast.unparse(wl.test)}`")
-    cur = wl.test.id
+    cur = tnames[0]  # the cursor: unparsed octets; a condition that can be false on non-empty octets shows up as a path that leaves the loop without buffering them
     frame = Obj("KNXIPFrame", "frame")
     rest = Sym("obj:remainder-returned-by-from_knx")
 
@@ -506,6 +526,35 @@ def tcp_stream_table(chk: Check, repo: Repo, lbd: LowerBound) -> None:
     chk.ob("tcp-buffer-owner", fi.site(), set(owners) <= {"TCPTransport.__init__", "TCPTransport.data_received_callback"} and "TCPTransport.data_received_callback" in owners, f"writers of `_buffer`: {owners}", key="tcp|buffer-owners")
 
 
+def header_length_readable(chk: Check, repo: Repo) -> None:
+    """The TCP skip relies on KNXIPHeader.from_knx having stored the announced length before it rejects a header
+    for any reason other than the header-length octet itself."""
+    fi = repo.func("xknx.knxip.header", "KNXIPHeader.from_knx")
+    chk.unit(fi)
+    cfg = CFG(fi.node)
+    mf = cfg.must_facts()
+    sets = [n for n in cfg.nodes if n.kind == "stmt" and isinstance(n.ast, (ast.Assign, ast.AnnAssign)) and any(isinstance(t, ast.Attribute) and t.attr == "total_length" and isinstance(t.ctx, ast.Store) for t in ast.walk(n.ast))]
+    if len(sets) != 1:
+        raise AnalysisError(f"KNXIPHeader.from_knx: expected one assignment of total_length, found {len(sets)}")
+    a = sets[0]
+    v = a.ast.value
+    data = fi.node.args.args[1].arg
+    ok_v = ast.unparse(v).replace(" ", "") in (f"{data}[4]*256+{data}[5]", f"{data}[4]<<8|{data}[5]", f"({data}[4]<<8)|{data}[5]", f"({data}[4]<<8)+{data}[5]", f"int.from_bytes({data}[4:6],'big')")
+    chk.ob("announced-length-read-from-octets-4-5", fi.site(a.ast), ok_v, f"`{ast.unparse(a.ast)}`", key="hdr|total-length-expr")
+    n_r = 0
+    for n in cfg.nodes:
+        if n.kind != "stmt" or not isinstance(n.ast, ast.Raise) or n.ast.exc is None:
+            continue
+        txt = ast.unparse(n.ast.exc)
+        if "IncompleteKNXIPFrame" in txt or "CouldNotParseKNXIP" not in txt:
+            continue
+        n_r += 1
+        len_octet = any(val and f"{data}[0]" in atom for atom, val in mf[n.id])
+        ok = cfg.dominates(a.id, n.id) or len_octet
+        chk.ob("announced-length-stored-before-rejecting", fi.site(n.ast), ok, f"`raise {txt[:60]}` is {'preceded by the total_length assignment' if cfg.dominates(a.id, n.id) else ('the header-length-octet rejection (no readable length)' if len_octet else 'reached WITHOUT total_length having been stored: the TCP transport cannot skip such a frame and drops the stream')}", key=f"hdr|raise|{canon(n.ast)[:80]}")
+    chk.floor("header rejections", n_r, 3)
+
+
 def udp_table(chk: Check, repo: Repo) -> None:
     fi = repo.func(UDP, "UDPTransport.data_received_callback")
     cfg = CFG(fi.node)
@@ -593,6 +642,7 @@ def run(chk: Check, repo: Repo) -> None:
     chk.ob("no-recursion", tcp.site(), not (mr.recursive & {tcp.ref, udp.ref}) and not any(call_name(c) == "self.data_received_callback" for c in calls(tcp.node)) and not any(call_name(c) == "self.data_received_callback" for c in calls(udp.node)),
            f"the transport callbacks do not call themselves (recursive functions met below the entries: {sorted(mr.recursive)})", key="no-recursion")
     tcp_stream_table(chk, repo, lbd)
+    header_length_readable(chk, repo)
     udp_table(chk, repo)
     chk.rule("E1 may-raise analysis of the transport callbacks and every registered transport callback; definite-assignment dataflow over the CFG with exceptional edges; decision tables of the TCP stream loop / UDP datagram handler by abstract path enumeration; loop progress by lower bounds; ownership census of the stream buffer")
     chk.assume("transport.send() on the transport that delivered the frame, and the link-layer callbacks (cemi_received_callback / indication_callback) are outside this check: C21, C18 and C32 carry them")
